@@ -1423,7 +1423,7 @@ class Phonopy:
             order='C'
 
         """
-        self._set_dynamical_matrix()
+        self._set_dynamical_matrix(keep_results=True)
         if self._dynamical_matrix is None:
             msg = "Dynamical matrix has not yet built."
             raise RuntimeError(msg)
@@ -1448,7 +1448,7 @@ class Phonopy:
             shape=(bands, ), dtype='double'
 
         """
-        self._set_dynamical_matrix()
+        self._set_dynamical_matrix(keep_results=True)
         if self._dynamical_matrix is None:
             msg = "Dynamical matrix has not yet built."
             raise RuntimeError(msg)
@@ -1488,7 +1488,7 @@ class Phonopy:
             order='C'
 
         """
-        self._set_dynamical_matrix()
+        self._set_dynamical_matrix(keep_results=True)
         if self._dynamical_matrix is None:
             msg = "Dynamical matrix has not yet built."
             raise RuntimeError(msg)
@@ -4012,10 +4012,15 @@ class Phonopy:
             if decimals:
                 self._force_constants = self._force_constants.round(decimals=decimals)
 
-    def _set_dynamical_matrix(self) -> None:
+    def _set_dynamical_matrix(self, keep_results: bool = False) -> None:
         import phonopy._phonopy as phonoc
 
         self._dynamical_matrix = None
+        if not keep_results:
+            # Objects set up from the previous dynamical matrix / force constants
+            # must not be used to answer after this state change.
+            self._mesh = None
+            self._random_displacements = None
 
         if self._is_symmetry and self._nac_params is not None:
             if len(self._nac_params["born"]) != len(self._primitive):
